@@ -475,13 +475,19 @@ Section Scope.
       + apply (RL_leaf _ _ _ _ Hp).
         destruct mn, mx; cbn [opt_ok] in *; repeat constructor; apply plain_text_forall; assumption.
       + cbn [app]. rewrite wtc_type. cbn [xstr_eqb].
-        rewrite text_raw_plain by (destruct mn; [assumption|reflexivity]).
+        rewrite text_raw_plain by
+          (destruct mn as [f1|], mx as [f2|]; cbn [sample32 sample64 opt_ok] in *;
+           try assumption; try reflexivity;
+           first [destruct (below_zero32 f2) | destruct (below_zero64 f2)]; first [assumption|reflexivity]).
         destruct mn, mx; cbn [opt_gen app]; fin.
     - eapply RL_ext.
       + apply (RL_leaf _ _ _ _ Hp).
         destruct mn, mx; cbn [opt_ok] in *; repeat constructor; apply plain_text_forall; assumption.
       + cbn [app]. rewrite wtc_type. cbn [xstr_eqb].
-        rewrite text_raw_plain by (destruct mn; [assumption|reflexivity]).
+        rewrite text_raw_plain by
+          (destruct mn as [f1|], mx as [f2|]; cbn [sample32 sample64 opt_ok] in *;
+           try assumption; try reflexivity;
+           first [destruct (below_zero32 f2) | destruct (below_zero64 f2)]; first [assumption|reflexivity]).
         destruct mn, mx; cbn [opt_gen app]; fin.
     - eapply RL_ext.
       + apply (RL_leaf _ _ _ _ Hp).
